@@ -325,6 +325,28 @@ impl<'a> Sess<'a> {
         }
         v.sort_unstable();
         v.dedup();
+        // terms with hundreds of classes (wide unions): both ends of the alphabet, the break points of the classes
+        // whose index is next to a power of two, and a random sample
+        if v.len() > 400 {
+            let ranges = ranges_of(t);
+            let mut keep: Vec<u32> = v[..6].to_vec();
+            keep.extend_from_slice(&v[v.len() - 6..]);
+            let mut p = 8usize;
+            while p <= ranges.len() + 1 {
+                for d in [p - 2, p - 1, p, p + 1] {
+                    if let Some(&(lo, hi)) = ranges.get(d) {
+                        keep.extend_from_slice(&[lo.saturating_sub(1), lo, hi, (hi + 1).min(MAXC)]);
+                    }
+                }
+                p *= 2;
+            }
+            for _ in 0..150 {
+                keep.push(v[self.rng.usize(v.len())]);
+            }
+            keep.sort_unstable();
+            keep.dedup();
+            return keep;
+        }
         v
     }
 
